@@ -82,6 +82,21 @@ def run(tier):
             body = "".join("\t%s%s\n" % (p, "" if p.endswith(";") else ";") for p in parts[:-1]) + "\n" * pad + "\t" + parts[-1] + " // HERE\n"
             src = "// é€ comment\n" * (pad // 3) + PRE + "fn main()\n{\n" + body + "}\n"
             marked.append(("o%d.%d" % (oi, pad), "known-offender:" + code, src))
+    # offenders in programs of two modules: the diagnostic names the file and line of the offending text, not the
+    # declaration it refers to in the other module
+    for mi, (code, lib, main_) in enumerate([
+        ("500", "pub const LEN: i32 = 4;\n", "import \"lib.pn\";\nfn main()\n{\n\tvar bytes: [LEN]u8; // HERE\n}\n"),
+        ("433", "pub fn len() -> usize\n{\n\treturn: 4\n}\n", "import \"lib.pn\";\nfn main()\n{\n\tvar bytes: [len]u8; // HERE\n}\n"),
+        ("351", "// a library\npub fn make_table(seed: i32)\n\t-> [4]i32 // HERE\n{\n\treturn: [seed, 1, 2, 3]\n}\n", "import \"lib.pn\";\nfn main()\n{\n\tvar t = make_table(1);\n}\n"),
+        ("512", "pub fn take(x: i32)\n{\n}\n", "import \"lib.pn\";\nfn main()\n{\n\tvar b: bool = true;\n\ttake(b); // HERE\n}\n"),
+        ("402", "pub const K: i32 = 1;\n", "import \"lib.pn\";\nfn main()\n{\n\tvar r: i32 = K + nowhere; // HERE\n}\n")]):
+        for order in (0, 1):
+            mods = [("main.pn", main_), ("lib.pn", lib)]
+            if order: mods.reverse()
+            marked.append(("om%d.%d" % (mi, order), "known-offender:" + code, "".join("//// module %s\n%s" % m for m in mods)))
+    # text before the offender on the same line whose length in characters differs from its length in the source
+    for ui, lit in enumerate(['"caf\\u{e9}: "', '"\\u{1F600}\\u{20ac}"', '"\\x41\\n\\t"', "'\\u{41}'", '"é€😀"', '"a" "b"']):
+        known.append(("ku%d" % ui, "known-ident", "fn main()\n{\n\tvar v0: i32 = 1;\n\tprint!(%s, qq7, \"\\n\");\n}\n" % lit))
     # the end of the file without a final newline, in every token state; and characters that some renderers
     # take for line ends although the lexer (and every editor) does not: the line shown is the line reported
     edges = []
@@ -105,11 +120,15 @@ def run(tier):
         diags = f[1].split(" ") if len(f) > 1 and f[1] else []
         if kind.startswith("known-offender:"):
             want = kind.split(":")[1]
-            here = 1 + src[:src.index("// HERE")].count("\n")
+            hfile = [fn_ for fn_, text_ in files.items() if "// HERE" in text_][0]
+            here = 1 + files[hfile][:files[hfile].index("// HERE")].count("\n")
             mine = [d for d in diags if d.startswith(want + "@")]
+            def at(d_):
+                m_ = re.match(r"\d+@(.*):(\d+)-(\d+):(\d+):", d_.split("#")[0])
+                return (m_.group(1), int(m_.group(4)))
             if not mine:
                 stats["offender-code-other"] += 1      # the construct is reported with another code: not a location matter
-            elif not any(int(re.match(r"\d+@.*:(\d+)-(\d+):(\d+):", d.split("#")[0]).group(3)) == here for d in mine):
+            elif not all(at(d) == (hfile, here) for d in mine):      # (every module that reports it: the importer sees the same text)
                 bad += 1
                 ck.violation("primary-location-elsewhere:E" + want, "E%s is reported at %s, the offending construct is on line %d" % (want, [d.split("#")[0] for d in mine], here), "source:\n%s" % src)
         for d in diags:
